@@ -776,6 +776,8 @@ class AnimalSpecies:
 
         NE_required = self.NE_balance.kcals
         if NE_required == 0:
+            # nothing to feed (empty herd): do not keep an earlier month's count
+            self.population_fed = self.current_population
             return grass_input, feed_input
 
         # Calculate NE from grass, if ruminant, else 0
